@@ -85,8 +85,8 @@ func genC06(c *Ctx) any {
 }
 
 // writeIndex runs the writer under test once. It returns the writer's error.
-func writeIndex(c *Ctx, kind, out string, rows []Row) (err error, panicked string) {
-	panicked = guard(func() {
+func writeIndex(c *Ctx, kind, out string, rows []Row) (err error, panicked string, hung string) {
+	panicked, hung = guardHang(func() {
 		switch kind {
 		case "cli", "cli-big":
 			in := out + ".csv"
@@ -99,7 +99,7 @@ func writeIndex(c *Ctx, kind, out string, rows []Row) (err error, panicked strin
 			_, err = BuildIndex(kind, out, rows)
 		}
 	})
-	return err, panicked
+	return err, panicked, hung
 }
 
 // writeCSV writes rows (all with the same columns, in spec order) as RFC 4180.
@@ -163,8 +163,12 @@ func runC06(c *Ctx, body json.RawMessage) *Verdict {
 	simrt.SetMapSeed(mapSeed)
 	d := simrt.NewDisk()
 	simrt.AttachDisk(d)
-	werr, p := writeIndex(c, cs.Writer, out, rows)
+	werr, p, hung := writeIndex(c, cs.Writer, out, rows)
 	simrt.AttachDisk(nil)
+	if hung != "" {
+		v.Fatal = true
+		return v.Violate("writer-hang", "writer %s never returns on a healthy disk:\n%s", cs.Writer, hung)
+	}
 	if p != "" {
 		return v.Violate("writer-panic", "writer %s panicked: %s", cs.Writer, p)
 	}
@@ -258,8 +262,12 @@ func runC06(c *Ctx, body json.RawMessage) *Verdict {
 		d2.FailAt, d2.FailErr, d2.FailShort, d2.FailOnly = at, we.Kind, we.Short, path
 		simrt.SetMapSeed(mapSeed)
 		simrt.AttachDisk(d2)
-		err2, p2 := writeIndex(c, cs.Writer, path, rows)
+		err2, p2, hung2 := writeIndex(c, cs.Writer, path, rows)
 		simrt.AttachDisk(nil)
+		if hung2 != "" {
+			v.Fatal = true
+			return v.Violate("writer-hang", "writer %s never returns after an injected %s at write %d of %d (blocked on a mutex):\n%s", cs.Writer, we.Kind, at, len(fl.Writes), hung2)
+		}
 		if p2 != "" {
 			return v.Violate("writer-panic", "writer %s panicked after an injected %s at write %d: %s", cs.Writer, we.Kind, at, p2)
 		}
